@@ -16,6 +16,7 @@ import (
 	"time"
 
 	"github.com/Comcast/rulio/core"
+	"github.com/Comcast/rulio/cron"
 	"github.com/Comcast/rulio/sys"
 	"verif/harness/enc"
 	"verif/harness/world"
@@ -37,7 +38,12 @@ func newTarget(state, via string) target {
 		c := core.DefaultControl()
 		c.Verbosity = core.NOTHING
 		cont.DefaultLocControl = c
-		s, err := sys.NewSystem(ctx, conf, cont, world.NewRecCron(true))
+		// the built-in cron (never started): it parses schedules, so the add hook can fail
+		cr, err := cron.NewCron(nil, time.Second, "verif", 100000)
+		if err != nil {
+			panic(err)
+		}
+		s, err := sys.NewSystem(ctx, conf, cont, &cron.InternalCron{Cron: cr})
 		if err != nil {
 			panic(err)
 		}
@@ -266,7 +272,7 @@ func main() {
 		for _, use := range uses {
 			for _, state := range []string{"indexed", "linear"} {
 				vias := []string{"direct"}
-				if di%4 == 0 {
+				if di%4 == 0 || doc["schedule"] != nil {
 					vias = append(vias, "system")
 				}
 				for _, via := range vias {
